@@ -261,6 +261,11 @@ def large_matching_case(ctx):
     for n in (40, 140):
         S = medium_diagram(n, 0, False)
         T = medium_diagram(n, 1, False) + [[0.0, 30.0]]      # unmatched long bar at the end: the bottleneck pair
+        if n == 140:
+            # short bars far apart: every point goes to the diagonal, so the matching has M+N = 281 rows and
+            # the bottleneck pair is row 280
+            S = [[p[0], p[0] + 0.05 + (p[1] - p[0]) / 40.0] for p in S]
+            T = [[p[0] + 100.0, p[0] + 100.05 + (p[1] - p[0]) / 40.0] for p in T[:-1]] + [[0.0, 30.0]]
         A, B = np.array(S), np.array(T)
         for which in ("bottleneck", "wasserstein"):
             d, m = getattr(persim, which)(A, B, matching=True)
